@@ -21,6 +21,38 @@ theorem source_shape :
     Gen.GROUP_KEY_FIELDS = ["instrument", "program", "is_drum"] ∧ Gen.KEY_DECODE_MODULUS = 12 := by
   decide
 
+/-! ## long files: the loader's tick guard -/
+
+/-- `midi_io` raises pretty_midi's `MAX_TICK` (10^7 ticks = 35 minutes at 960 ticks per quarter and 300 qpm) at
+import time; with the value in force (regenerated from the running package on every run) the limit lies above
+pretty_midi's default, and every file whose last event lies up to 10^10 − 2 ticks in is accepted by the loader's guard:
+the composed model then is writer → transport → reader with no further error case.  (Beyond 10^10 ticks — 24 days
+at that resolution — the file that was just written is refused; the quantifier of C03 has no bound, the code has
+this one.) -/
+theorem midi_reader_accepts_long_files (R : Rat → Rat) (s : NoteSeq) (drop : Option Rat) (pm : PM)
+    (h : writePM R s drop = .ok pm) (hl : lastWrittenTick R pm + 2 ≤ 10000000000) :
+    (10000000 : Int) < Gen.MAX_TICK ∧ tickGuardOk (lastWrittenTick R pm) = true ∧
+    roundTripExec R s drop = (match readPM R (transportExec R pm) with
+      | .error _ => .error "MIDIConversionError"
+      | .ok r => .ok r) := by
+  have hM : (10000000000 : Int) ≤ Gen.MAX_TICK := by decide
+  have hg : tickGuardOk (lastWrittenTick R pm) = true := by
+    unfold tickGuardOk
+    exact decide_eq_true (by omega)
+  refine ⟨by omega, hg, ?_⟩
+  unfold roundTripExec
+  rw [h]
+  simp only [hg, if_true]
+  rfl
+
+/-- non-vacuity: one note ending 2100.5 s in at 960 ticks per quarter and 300 qpm lies beyond pretty_midi's default
+limit (tick 10 082 400 > 10^7) and within note-seq's -/
+example : (match writePM id { notes := [{ (default : Note) with pitch := 60, velocity := 80, start := 2100, end_ := 4201/2 }],
+                                tempos := [⟨0, 300⟩], tpq := 960 } none with
+    | .ok pm => (lastWrittenTick id pm, tickGuardOk (lastWrittenTick id pm))
+    | .error _ => (0, false)) = (10082400, true) := by
+  decide +kernel
+
 /-! ## grouping -/
 
 /-- The writer's groups are exactly the fibres of `(instrument, program, is_drum)`, visited in strictly
